@@ -9,6 +9,7 @@ import (
 	"io"
 	"math/rand"
 	"os"
+	"runtime/debug"
 
 	"github.com/ethereum/go-ethereum/log"
 )
@@ -32,6 +33,15 @@ func main() {
 	}
 	o := newOut()
 	o.Comment(fmt.Sprintf("prop=%s seed=%d thorough=%v", os.Args[1], seed, thorough))
+	// a panic on the main goroutine (an outcome the run did not expect, e.g. a put refused by a fresh store) must not
+	// lose the cases written so far: they are what the driver judges
+	defer func() {
+		if rec := recover(); rec != nil {
+			o.Flush()
+			fmt.Fprintf(os.Stderr, "harness panic: %v\n%s\n", rec, debug.Stack())
+			os.Exit(3)
+		}
+	}()
 	run(o, rand.New(rand.NewSource(seed)), thorough, os.Args[2:])
 	o.Flush()
 }
